@@ -162,3 +162,22 @@ Definition ex_irr_go : geom_out :=
         match r with Ok ?go => exact go end).
 Lemma ex_irr_conv : conv_geom ex_irr_gs ex_irr_st [] false = (fst (conv_geom ex_irr_gs ex_irr_st [] false), Ok ex_irr_go).
 Proof. vm_compute. reflexivity. Qed.
+
+From DV Require Import Stack.Spec.
+Lemma ex_irr_refutes :
+  exists gs st code embed st' go S T V r c s t v i j g idx',
+    reachable st /\ gfiles_ok gs st /\ positions_ok gs st /\
+    conv_geom gs st code embed = (st', Ok go) /\
+    0 < S /\ 0 < T /\ 0 < V /\ o_shape (go_nifti go) = grid_shape r c S T V /\
+    s < S /\ t < T /\ v < V /\
+    file_at gs (go_ord0 go) (cell_pos S T s t v) = Some g /\
+    apply_aff (go_T go) idx' = Some (cell_idx (length (grid_shape r c S T V)) i j s t v) /\
+    ~ veq3 (world (go_aff go) idx') (ras (pixel_pos g i j)).
+Proof.
+  exists ex_irr_gs, ex_irr_st, [], false, (fst (conv_geom ex_irr_gs ex_irr_st [] false)), ex_irr_go,
+         3, 1, 1, 2, 2, 2, 0, 0, 0, 0, (ex_irr_gfile 0), [0; 0; 2].
+  split; [exact ex_irr_reachable|]. split; [exact ex_irr_gfiles_ok|]. split; [exact ex_irr_positions_ok|].
+  split; [exact ex_irr_conv|].
+  repeat (split; [first [lia | vm_compute; reflexivity]|]).
+  intros H. specialize (H 0 ltac:(lia)). vm_compute in H. discriminate H.
+Qed.
